@@ -52,6 +52,12 @@ type Thread struct {
 	// functions).
 	goFunctionCallDepth int
 
+	// Depth of nested RunContinuation calls in the thread, i.e. of Lua code
+	// called from Go code.  It is limited in the same way, so that recursion
+	// through metamethods called by operators (which does not go through a
+	// GoFunction) cannot overflow the Go stack either.
+	runContinuationDepth int
+
 	DebugHooks
 
 	closeStack // Stack of pending to-be-closed values
@@ -87,6 +93,11 @@ var errErrorInMessageHandler = StringValue("error in error handling")
 // the next continuation is nil or an error occurs, in which case it returns the
 // error.
 func (t *Thread) RunContinuation(c Cont) (err error) {
+	t.runContinuationDepth++
+	defer func() { t.runContinuationDepth-- }()
+	if t.runContinuationDepth > maxGoFunctionCallDepth {
+		return errors.New("stack overflow")
+	}
 	var next Cont
 	var errContCount = 0
 	_ = t.triggerCall(t, c)
